@@ -402,16 +402,18 @@ def tick (s : St) (d : Nat) : Except Err St :=
   let run := s.running.map fun t => { t with age := t.age + d }
   timeoutWalk { s with running := run } run []
 
+/-- `pushFreePeer(task.syncPeer)`. -/
+def freePeer (s : St) : Option Peer → St
+  | some p => { s with free := s.free ++ [p] }
+  | none => s
+
 /-- `GetBlockChunkRsp` (and `GetBlockChunkRspError`). -/
 def chunkRsp (s : St) (peer : Nat) (err : Bool) (blocks : List Blk) : Except Err (St × List Out) :=
   if validChunk err blocks then
     match findTask (fun t => isMatched t peer blocks) s.running with
     | none => .ok (s, [])                     -- dropped unknown block response
     | some (t, run) =>
-      let s := { s with running := run }
-      let s := match t.peer with            -- pushFreePeer(task.syncPeer)
-        | some p => { s with free := s.free ++ [p] }
-        | none => s
+      let s := freePeer { s with running := run } t.peer
       -- addConnectTask
       let c : ConnTask := ⟨blocks, (blocks.head?.map (·.no)).getD 0, 0⟩
       connectNext { s with connQ := pushConn s.connQ c }
